@@ -815,6 +815,8 @@ where
             failure_reason: None,
         });
 """)]),
+    ("c13-keyring-ids-swapped", ["C13"], [], [(SQL + "lib.rs", "                keyring::get_or_create_db_key(service_id, db_key_id)?", "                keyring::get_or_create_db_key(db_key_id, service_id)?")]),
+    ("c17-aad-name-and-type-swapped-at-builder", ["C17"], [], [(CORE + "encrypted_media/crypto.rs", """    let context = build_hkdf_context(scheme_label, original_hash, mime_type, filename, b"key");""", """    let context = build_hkdf_context(scheme_label, original_hash, filename, mime_type, b"key");""")]),
     ("c20-no-prune-after-hydration", ["C20"], [], [(CORE + "epoch_snapshots.rs", """        // Enforce retention limit after hydration
         while queue.len() > self.retention_count {
             if let Some(old_snap) = queue.pop_front() {
